@@ -80,7 +80,40 @@ func OffsetWriters(c *core.Ctx) []OffWriter {
 				})
 			}
 		}
-		goLit := b.Lit != nil && StartedByGo(sites, b)
+		// a literal runs in the goroutine of the innermost go-started literal around it, else in its declaring function's
+		goLit, plainLit := false, false
+		if b.Lit != nil {
+			for _, pn := range core.PathTo(b.Decl.Body, b.Lit) {
+				if fl, ok := pn.(*ast.FuncLit); ok {
+					for _, gsite := range sites {
+						if gsite.Lit == fl {
+							goLit = true
+						}
+					}
+				}
+			}
+			if !goLit {
+				// only literals bound to a local and called in place are followed
+				called := false
+				core.InspectAll(b.Decl.Body, func(m ast.Node) bool {
+					if as, ok := m.(*ast.AssignStmt); ok && len(as.Rhs) == 1 && ast.Unparen(as.Rhs[0]) == ast.Expr(b.Lit) && len(as.Lhs) == 1 {
+						if id, ok := as.Lhs[0].(*ast.Ident); ok {
+							obj := core.ObjOf(info, id)
+							core.InspectAll(b.Decl.Body, func(k ast.Node) bool {
+								if call, ok := k.(*ast.CallExpr); ok {
+									if cid, ok := ast.Unparen(call.Fun).(*ast.Ident); ok && core.ObjOf(info, cid) == obj {
+										called = true
+									}
+								}
+								return true
+							})
+						}
+					}
+					return true
+				})
+				plainLit = !called
+			}
+		}
 		switch {
 		case w.Tok == token.AND:
 			ow.Why = "the address of the field is taken"
@@ -92,7 +125,7 @@ func OffsetWriters(c *core.Ctx) []OffWriter {
 			} else {
 				ow.Why = "written once by a separately started goroutine"
 			}
-		case b.Lit != nil:
+		case plainLit:
 			ow.Why = "written inside a closure whose caller is not followed"
 		case b.Decl == parse.Decl:
 			ow.Class, ow.Why = "parser", "written by the goroutine that reads it"
@@ -103,7 +136,8 @@ func OffsetWriters(c *core.Ctx) []OffWriter {
 				ow.Why = "written by Sync after syncCommand was called"
 			}
 		default:
-			calls := CallsTo(c, b.Obj())
+			declObj, _ := info.Defs[b.Decl.Name].(*types.Func)
+			calls := CallsTo(c, declObj)
 			allBefore := len(calls) > 0
 			viaGo := false
 			for _, cs := range calls {
